@@ -1153,6 +1153,22 @@ class _CmpDir(ast.NodeTransformer):
 
     def visit_Call(self, node: ast.Call):
         self.generic_visit(node)
+        if any(isinstance(a_, ast.Starred) for a_ in node.args):
+            # `f(*((a, b) + (c,)))` / `f(*[a, b])` with the tuples written out is `f(a, b, c)`
+            def items(e_):
+                if isinstance(e_, (ast.Tuple, ast.List)) and not any(isinstance(x_, ast.Starred) for x_ in e_.elts):
+                    return list(e_.elts)
+                if isinstance(e_, ast.BinOp) and isinstance(e_.op, ast.Add):
+                    l_, r_ = items(e_.left), items(e_.right)
+                    if l_ is not None and r_ is not None and type(e_.left) is type(e_.right) or \
+                            (l_ is not None and r_ is not None and isinstance(e_.left, (ast.Tuple, ast.BinOp)) and isinstance(e_.right, (ast.Tuple, ast.BinOp))):
+                        return l_ + r_
+                return None
+            new_args = []
+            for a_ in node.args:
+                it_ = items(a_.value) if isinstance(a_, ast.Starred) else None
+                new_args.extend(it_ if it_ is not None else [a_])
+            node.args = new_args
         if isinstance(node.func, ast.Name) and node.func.id == 'reversed' and len(node.args) == 1 and not node.keywords \
                 and isinstance(node.args[0], ast.Call) and isinstance(node.args[0].func, ast.Name) \
                 and node.args[0].func.id == 'range' and not node.args[0].keywords and len(node.args[0].args) in (1, 2) \
@@ -1487,6 +1503,8 @@ def _stored_names(node: ast.AST) -> Set[str]:
             out.add(n.name)
         elif isinstance(n, (ast.FunctionDef, ast.ClassDef)):
             out.add(n.name)
+        elif isinstance(n, (ast.Import, ast.ImportFrom)):
+            out |= {(a.asname or a.name).split('.')[0] for a in n.names}     # (an import binds a name like an assignment)
     return out
 
 
@@ -1499,6 +1517,8 @@ def _stores_uncached(node: ast.AST, v: str) -> bool:
                 and id(n) not in comp_targets:
             return True
         if isinstance(n, ast.ExceptHandler) and n.name == v:
+            return True
+        if isinstance(n, (ast.Import, ast.ImportFrom)) and any((a.asname or a.name).split('.')[0] == v for a in n.names):
             return True
         if isinstance(n, (ast.FunctionDef, ast.ClassDef)) and n.name == v:
             return True
@@ -4505,6 +4525,61 @@ def _pair_combinations(fn: ast.FunctionDef, combos: Set[str]) -> bool:
                 changed = True
                 return node.args[0]
             return node
+    # `for (i, u), (j, v) in combinations(enumerate(Y), 2): BODY` - the pairs of positions with their elements - is
+    # `for i, j in [(a, b) for a in range(len(Y)) for b in range(a + 1, len(Y))]: u = Y[i]; v = Y[j]; BODY`
+    # (Y a name, or a comprehension `[E(n) for n in S]`, whose k-th element is E(S[k]) and whose length is len(S))
+    def loops(block):
+        nonlocal changed
+        for st in block:
+            if isinstance(st, (ast.FunctionDef, ast.ClassDef)):
+                continue
+            for b in _blocks_of(st):
+                loops(b)
+            if not (isinstance(st, ast.For) and not st.orelse and isinstance(st.iter, ast.Call) and not st.iter.keywords
+                    and len(st.iter.args) == 2 and isinstance(st.iter.args[1], ast.Constant) and st.iter.args[1].value == 2):
+                continue
+            f = st.iter.func
+            nm = f.id if isinstance(f, ast.Name) else (f.attr if isinstance(f, ast.Attribute) and isinstance(f.value, ast.Name)
+                                                       and f.value.id == 'itertools' else None)
+            if not (nm in combos or (isinstance(f, ast.Attribute) and nm == 'combinations')):
+                continue
+            X = st.iter.args[0]
+            tg = st.target
+            if not (isinstance(X, ast.Call) and isinstance(X.func, ast.Name) and X.func.id == 'enumerate' and len(X.args) == 1
+                    and not X.keywords and isinstance(tg, ast.Tuple) and len(tg.elts) == 2
+                    and all(isinstance(e, ast.Tuple) and len(e.elts) == 2 and all(isinstance(x, ast.Name) for x in e.elts) for e in tg.elts)):
+                continue
+            Y = X.args[0]
+            (i_, u_), (j_, v_) = [(e.elts[0].id, e.elts[1].id) for e in tg.elts]
+            if len({i_, u_, j_, v_}) != 4:
+                continue
+            if isinstance(Y, ast.Name):
+                length = f"len({Y.id})"
+
+                def elem(k, Y=Y):
+                    return ast.parse(f"{Y.id}[{k}]", mode='eval').body
+                if Y.id in mutated_names(st, calls=False):
+                    continue
+            elif isinstance(Y, ast.ListComp) and len(Y.generators) == 1 and not Y.generators[0].ifs and isinstance(Y.generators[0].iter, ast.Name) \
+                    and isinstance(Y.generators[0].target, ast.Name) and _is_pure_expr(Y.elt):
+                S, var = Y.generators[0].iter.id, Y.generators[0].target.id
+                length = f"len({S})"
+                if S in mutated_names(st, calls=False):
+                    continue
+
+                def elem(k, Y=Y, S=S, var=var):
+                    return _Subst(var, ast.parse(f"{S}[{k}]", mode='eval').body).visit(copy.deepcopy(Y.elt))
+            else:
+                continue
+            a, b = fresh('a'), fresh('b')
+            st.iter = ast.copy_location(ast.parse(f"[({a}, {b}) for {a} in range({length}) for {b} in range({a} + 1, {length})]",
+                                                  mode='eval').body, st.iter)
+            st.target = ast.copy_location(ast.Tuple(elts=[ast.Name(id=i_, ctx=ast.Store()), ast.Name(id=j_, ctx=ast.Store())],
+                                                    ctx=ast.Store()), tg)
+            st.body[0:0] = [_fix(ast.Assign(targets=[ast.Name(id=u_, ctx=ast.Store())], value=elem(i_)), st),
+                            _fix(ast.Assign(targets=[ast.Name(id=v_, ctx=ast.Store())], value=elem(j_)), st)]
+            changed = True
+    loops(fn.body)
     T().visit(fn)
     if changed:
         ast.fix_missing_locations(fn)
@@ -5321,6 +5396,8 @@ def normalize_function(fn: ast.FunctionDef, module_helpers: Dict[str, ast.Functi
         _expand_small_slice_store(fn)
         _split_chained_assign(fn)
         _merge_nested_ifs(fn)
+        _fold_none_default(fn)
+        _fuse_tag_dispatch(fn)
         _drop_self_assign(fn)
         _repack_indexed_result(fn, arity_of)
         _append_loops_to_comprehension(fn)
@@ -5680,6 +5757,52 @@ def _sink_return_into_adjusting_arms(fn: ast.FunctionDef) -> bool:
         return e
     adj = [adjust(a) for a in arms]
     if all(a is None for a in adj):
+        # the same with a result temporary: both arms define `r = E_k` (a plain, side-effect free definition) and r is read by
+        # the return expression only - `return E[r := E_k]` per arm (what an epilogue helper that returns the trimmed
+        # index looks like once it is folded in)
+        if not (node.body and node.orelse) or not all(isinstance(st, (ast.Assign, ast.AugAssign, ast.Expr)) for a in arms for st in a):
+            return False
+        cands = None
+        for a in arms:
+            names = {st.targets[0].id for st in a if isinstance(st, ast.Assign) and len(st.targets) == 1
+                     and isinstance(st.targets[0], ast.Name)}
+            cands = names if cands is None else cands & names
+        for r in sorted(cands or ()):
+            if r in _fn_params(fn) or r not in _names_loaded(E):
+                continue
+            arm_nodes = {id(n) for a in arms for st in a for n in ast.walk(st)} | {id(n) for n in ast.walk(ret)}
+            if any(isinstance(n, ast.Name) and n.id == r and id(n) not in arm_nodes for n in ast.walk(fn)):
+                continue
+            plan = []
+            for a in arms:
+                defs = [k for k, st in enumerate(a) if _stores(st, r)]
+                if len(defs) != 1 or not _plain_def(a[defs[0]], r):
+                    plan = None
+                    break
+                d = defs[0]
+                Er = a[d].value
+                if not _is_pure_expr(Er) or r in _names_loaded(Er) \
+                        or any(r in _names_loaded(st) for k, st in enumerate(a) if k != d):
+                    plan = None
+                    break
+                after = set()
+                for st in a[d + 1:]:
+                    after |= mutated_names(st, calls=False)
+                if after & _names_loaded(Er):
+                    plan = None
+                    break
+                plan.append((a, d, Er))
+            if not plan:
+                continue
+            for a, d, Er in plan:
+                rr = ast.copy_location(ast.Return(value=_Subst(r, Er).visit(copy.deepcopy(E))), ret)
+                _fold_index_offsets(rr)
+                del a[d]
+                a.append(rr)
+            del body[-1]
+            ast.fix_missing_locations(fn)
+            _invalidate()
+            return True
         return False
     if not all(isinstance(st, (ast.Assign, ast.AugAssign, ast.Expr)) for a in arms for st in a):
         return False
@@ -5694,6 +5817,134 @@ def _sink_return_into_adjusting_arms(fn: ast.FunctionDef) -> bool:
     ast.fix_missing_locations(fn)
     _invalidate()
     return True
+
+
+def _fold_none_default(fn: ast.FunctionDef) -> bool:
+    """N58: `x = None` ... `if x is None: BODY else: ELSE` in the same block with no store of x in between is BODY (an
+    optional parameter of a folded-in helper that the caller left at its default); the definition goes when BODY
+    re-binds x before reading it and nothing else reads it before."""
+    changed = False
+
+    def visit(block):
+        nonlocal changed
+        for st in block:
+            if isinstance(st, (ast.FunctionDef, ast.ClassDef)):
+                continue
+            for b in _blocks_of(st):
+                visit(b)
+        k = 0
+        while k < len(block):
+            st = block[k]
+            if isinstance(st, ast.Assign) and len(st.targets) == 1 and isinstance(st.targets[0], ast.Name) \
+                    and isinstance(st.value, ast.Constant) and st.value.value is None:
+                x = st.targets[0].id
+                j = k + 1
+                while j < len(block) and not _stores(block[j], x) and x not in _names_loaded(block[j]) \
+                        and not isinstance(block[j], (ast.FunctionDef, ast.ClassDef, ast.While, ast.For)):
+                    j += 1
+                if j < len(block) and isinstance(block[j], ast.If):
+                    t_ = block[j].test
+                    if isinstance(t_, ast.Compare) and len(t_.ops) == 1 and isinstance(t_.left, ast.Name) and t_.left.id == x \
+                            and isinstance(t_.comparators[0], ast.Constant) and t_.comparators[0].value is None \
+                            and isinstance(t_.ops[0], (ast.Is, ast.IsNot)):
+                        taken = block[j].body if isinstance(t_.ops[0], ast.Is) else block[j].orelse
+                        taken = [s_ for s_ in taken if not isinstance(s_, ast.Pass)]
+                        first_reads = any(x in _names_loaded(s_) for s_ in taken[:1])
+                        rebinds = bool(taken) and _stores(taken[0], x) and not first_reads
+                        block[j:j + 1] = taken
+                        if rebinds:
+                            del block[k]
+                        changed = True
+                        continue
+            k += 1
+    visit(fn.body)
+    if changed:
+        if not fn.body:
+            fn.body.append(ast.Pass())
+        ast.fix_missing_locations(fn)
+        _invalidate()
+    return changed
+
+
+def _fuse_tag_dispatch(fn: ast.FunctionDef) -> bool:
+    """N57: `if A: t = 1 elif B: t = 2 else: t = 0` directly followed by `if t == 1: X elif t == 2: Y else: Z` - t a local
+    that nothing else reads, the tags distinct literals - is `if A: X elif B: Y else: Z` (a selector helper that names
+    the case, folded in, and the dispatch on its answer)."""
+    changed = False
+    loads: Dict[str, int] = {}
+    for n in ast.walk(fn):
+        if isinstance(n, ast.Name) and isinstance(n.ctx, ast.Load):
+            loads[n.id] = loads.get(n.id, 0) + 1
+
+    def chain(node: ast.If):
+        arms, cur = [], node
+        while True:
+            arms.append((cur.test, cur.body))
+            if len(cur.orelse) == 1 and isinstance(cur.orelse[0], ast.If):
+                cur = cur.orelse[0]
+                continue
+            return arms, cur.orelse
+
+    def visit(block):
+        nonlocal changed
+        for st in block:
+            if isinstance(st, (ast.FunctionDef, ast.ClassDef)):
+                continue
+            for b in _blocks_of(st):
+                visit(b)
+        k = 0
+        while k + 1 < len(block):
+            a, b = block[k], block[k + 1]
+            if isinstance(a, ast.If) and isinstance(b, ast.If) and a.orelse and b.orelse:
+                arms1, else1 = chain(a)
+                arms2, else2 = chain(b)
+                bodies1 = [bd for _, bd in arms1] + [else1]
+
+                def tag_of(bd):
+                    if len(bd) == 1 and isinstance(bd[0], ast.Assign) and len(bd[0].targets) == 1 and isinstance(bd[0].targets[0], ast.Name) \
+                            and isinstance(bd[0].value, ast.Constant) and isinstance(bd[0].value.value, (int, str)) \
+                            and not isinstance(bd[0].value.value, bool):
+                        return bd[0].targets[0].id, bd[0].value.value
+                    return None
+                tags = [tag_of(bd) for bd in bodies1]
+                if all(t is not None for t in tags) and len({t[0] for t in tags}) == 1 and len({t[1] for t in tags}) == len(tags):
+                    tname = tags[0][0]
+                    tests2 = []
+                    ok_ = tname not in _fn_params(fn)
+                    for t_, _bd in arms2:
+                        if isinstance(t_, ast.Compare) and len(t_.ops) == 1 and isinstance(t_.ops[0], ast.Eq) \
+                                and isinstance(t_.left, ast.Name) and t_.left.id == tname and isinstance(t_.comparators[0], ast.Constant):
+                            tests2.append(t_.comparators[0].value)
+                        else:
+                            ok_ = False
+                    # t is read by the tests of the second chain only
+                    if ok_ and loads.get(tname, 0) == len(arms2) and not any(
+                            isinstance(n, ast.Name) and n.id == tname for _t, bd in arms2 for s_ in bd for n in ast.walk(s_)) \
+                            and not any(isinstance(n, ast.Name) and n.id == tname for s_ in else2 for n in ast.walk(s_)):
+                        def body_for(c):
+                            for tv, (_t, bd) in zip(tests2, arms2):
+                                if type(tv) is type(c) and tv == c:
+                                    return bd
+                            return else2
+                        used = []
+                        new_arms = []
+                        for (tst, _bd), (_n, c) in zip(arms1, tags):
+                            new_arms.append((tst, copy.deepcopy(body_for(c))))
+                        new_else = copy.deepcopy(body_for(tags[-1][1]))
+                        node = None
+                        cur_else = new_else
+                        for tst, bd in reversed(new_arms):
+                            node = _fix(ast.If(test=tst, body=bd or [ast.Pass()], orelse=cur_else), a)
+                            cur_else = [node]
+                        block[k:k + 2] = [node]
+                        changed = True
+                        continue
+            k += 1
+    visit(fn.body)
+    if changed:
+        ast.fix_missing_locations(fn)
+        _invalidate()
+    return changed
 
 
 def _explicit_checks(tree: ast.Module):
